@@ -13,6 +13,15 @@ NOTE_R = ("Mode R = IEEE specials over exact reals (no rounding/overflow/signed 
           "with instance axioms. Trusted: z3, the shim's model of NumPy element semantics, the oracles in /verif/spec and the harness. ")
 
 CHECKS = {
+    "C07": dict(
+        text="Bounded symbolic verification: rules are built by the real Rule.create from enumerated consequent texts (1-3 conclusions, "
+             "0-2 hedges each, every permutation); the activation degree is symbolic over all extended reals (scalar and batch), flags "
+             "enumerated; after the real Rule.trigger / RuleBlock.activate every fuzzy output must equal the per-conclusion "
+             "specification (one Activated per enabled variable, term and implication by identity, degree = sanitise(own hedges(d))), "
+             "decided by SMT per path with registered and uninterpreted (non-commuting) hedges, so leakage between conclusions and "
+             "order dependence are observable for every degree value.",
+        note=NOTE_R + "Consequent texts are enumerated (bounded grammar), numbers symbolic. One recorded known finding (hedge leak).",
+        ref="DESIGN.md §2 C07"),
     "C12": dict(
         text="Bounded symbolic verification: the defuzzifier is a stub returning symbolic values of every result kind the registered "
              "defuzzifiers produce (0-d array, NumPy scalar, 1-d batch), so all sequences of NaN/in-range/out-of-range values become "
